@@ -261,6 +261,7 @@ func groupTyped(s *sink, g *hx.Gen) {
 	groupStepOutput(s, g)
 	groupTypedRules(s, g)
 	groupOneOfTwins(s, g)
+	groupGoWitnesses(s)
 	cores := tyCores()
 	wraps := tyWraps()
 	core := cores[g.R.Intn(len(cores))]
